@@ -86,6 +86,9 @@ def check(ck: Checker) -> None:
     for d, c in m.dir_add:
         w = avoiding_path(m.g, d.id, lambda n: n.id in f_ids, start=m.head.id)
         ck.require(w is None, "C15.treelast", m.move, d, "transfer sends the directory object after its files", "transfer can send the directory object before its files", witness=m.g.fmt_path(w) if w else None)
+    from .transfer_common import check_missing_readonly
+
+    check_missing_readonly(ck, m, "C15.treelast")
     # -------------------------------------------------------------- statetx
     _batch(ck)
     for o in ck.obs:
